@@ -40,8 +40,26 @@ def _callee_heads(t):
     return out
 
 
+def _ok_or(t):
+    """the error variant E of `from_residual(.. branch(Option::ok_or(_, E)))`, if E is a literal variant"""
+    x = t
+    while isinstance(x, tuple) and x and x[0] in ("from_residual", ".0", "as:Break", "branch") and len(x) == 2:
+        x = x[1]
+    if isinstance(x, tuple) and len(x) == 3 and x[0] == "Option::ok_or" and isinstance(x[2], tuple) and x[2] and \
+            isinstance(x[2][0], str) and "::" in x[2][0]:
+        e = x[2]
+        while isinstance(e, tuple) and len(e) > 1 and isinstance(e[1], tuple) and e[1] and isinstance(e[1][0], str) and "::" in e[1][0]:
+            e = e[1]
+        return e[0]
+    return None
+
+
+ALT = {}
+
+
 def inventory(b):
     inv = []
+    ALT.clear()
     # explicit refusals: every construction of Result::Err(<error value>) anywhere in the body (covers `return Err(..)`,
     # `Some(Err(..))` of fallible iterators, `.ok_or(Err..)` arguments) and every `_0 = None`
     for bi, blk in enumerate(b.blocks):
@@ -62,8 +80,13 @@ def inventory(b):
     for bi, k, d, rv in b.ret_assignments():
         if k == "call" and "from_residual" in str(d):
             t = apnf.N(strip_all(b.call_term(rv)))
+            ok_or = _ok_or(t)
             heads = _callee_heads(t)
-            inv.append("propagates:" + (heads[0] if heads else "?"))
+            d_ = "propagates:" + (heads[0] if heads else "?")
+            if ok_or is not None:
+                # `opt.ok_or(E)?` is the explicit refusal `return Err(E)` spelled with a combinator: either descriptor names it
+                ALT[d_] = ALT.get(d_, set()) | {"explicit:Err(%s)" % ok_or}
+            inv.append(d_)
     return sorted(inv)
 
 
@@ -92,7 +115,7 @@ def run_for(ctx):
         got = set(inventory(b))
         want = set(r["refusals"])
         n += 1
-        added = sorted(got - want)
+        added = sorted(x for x in got - want if not (ALT.get(x, set()) & want))
         ctx.ob(rule, key, not added,
                "no new kind of refusal (%d kinds reviewed)" % len(want) if not added else
                "%s can now refuse in a way that was not reviewed: %s" % (key, added),
